@@ -73,4 +73,151 @@ theorem applyWrs_shift (d : Dev) (s : Nat) (ws : List Wr) (i : Nat) :
         simp only [h, h', if_false]
     rw [hfun]
 
+/-! ### the whole Create image -/
+
+def Covered (ws : List Wr) (i : Nat) : Prop := ∃ w ∈ ws, w.off ≤ i ∧ i < w.off + w.data.length
+
+/-- a byte some write of the list covers does not depend on what the device held before -/
+theorem applyWrs_covered (ws : List Wr) (i : Nat) : ∀ (d1 d2 : Dev), (d1 i = d2 i ∨ Covered ws i) →
+    applyWrs d1 ws i = applyWrs d2 ws i := by
+  induction ws with
+  | nil =>
+    intro d1 d2 h
+    rcases h with h | ⟨w, hw, _⟩
+    · exact h
+    · cases hw
+  | cons w ws ih =>
+    intro d1 d2 h
+    simp only [applyWrs, List.foldl_cons]
+    apply ih
+    by_cases hc : w.off ≤ i ∧ i < w.off + w.data.length
+    · left; unfold applyWr; simp only [hc, and_self, if_true]
+    · rcases h with h | ⟨w', hw', hcov⟩
+      · left; unfold applyWr; simp only [hc, if_false]; exact h
+      · rcases List.mem_cons.1 hw' with rfl | hm
+        · exact absurd hcov hc
+        · right; exact ⟨w', hm, hcov⟩
+
+/-- ANY write list applied twice leaves the device as after the first time: each covered byte is fixed by the last
+    write that covers it, each other byte is untouched -/
+theorem applyWrs_twice (d : Dev) (ws : List Wr) : applyWrs (applyWrs d ws) ws = applyWrs d ws := by
+  funext i
+  by_cases hc : Covered ws i
+  · exact applyWrs_covered ws i _ _ (Or.inr hc)
+  · apply applyWrs_frame
+    intro w hw
+    have : ¬ (w.off ≤ i ∧ i < w.off + w.data.length) := fun h => hc ⟨w, hw, h.1, h.2⟩
+    omega
+
+/-- two devices with whatever prior contents agree, after the same write list, on every byte the list covers -/
+theorem applyWrs_two_devices (ws : List Wr) (d1 d2 : Dev) (i : Nat) (hc : Covered ws i) :
+    applyWrs d1 ws i = applyWrs d2 ws i :=
+  applyWrs_covered ws i d1 d2 (Or.inr hc)
+
+/-- two Create runs — different start offsets, different prior device contents — leave the same byte at every
+    volume offset Create writes -/
+theorem image_two_runs (img : List Wr) (d1 d2 : Dev) (s1 s2 i : Nat) (hc : Covered img i) :
+    applyWrs d1 (Detect.shift s1 img) (s1 + i) = applyWrs d2 (Detect.shift s2 img) (s2 + i) := by
+  rw [applyWrs_shift, applyWrs_shift]
+  exact applyWrs_covered img i _ _ (Or.inr hc)
+
+/-- the label entry of an odd epoch is the one of the even second before it -/
+theorem labelEntry_odd (label : List Nat) (e : Nat) (h : timeToDateTime (e + 1) = timeToDateTime e) :
+    labelEntry label (e + 1) = labelEntry label e := by
+  unfold labelEntry
+  rw [h]
+
+theorem createImage_epoch_congr (P : Detect.Params) (k : FatKind) (size : Nat) (label : List Nat) (e1 e2 : Nat)
+    (h : labelEntry label e1 = labelEntry label e2) : createImage P k size label e1 = createImage P k size label e2 := by
+  unfold createImage
+  rw [h]
+
+theorem covered_of (ws : List Wr) (w : Wr) (i : Nat) (hm : w ∈ ws) (h1 : w.off ≤ i) (h2 : i < w.off + w.data.length) :
+    Covered ws i := ⟨w, hm, h1, h2⟩
+
+theorem take_pad_length (b : Bytes) (n : Nat) : (b.take n ++ zeros (n - b.length)).length = n := by
+  simp only [List.length_append, List.length_take, zeros_length]
+  omega
+
+theorem sectorBytes_length (f : Nat → UInt8) (n : Nat) : (Detect.sectorBytes f n).length = n := by
+  simp [Detect.sectorBytes]
+
+/-- what the FAT32 image covers: sectors 0, 1, 6, 7 of the reserved area, both FATs, the root cluster -/
+theorem createImage32_covers (P : Detect.Params) (size : Nat) (label : List Nat) (epoch : Nat) (img : List Wr)
+    (h : createImage P .f32 size label epoch = some img) :
+    ∃ L, Detect.layout32 P size 512 = some L ∧
+      ∀ i, (i < 2 * L.bps ∨ (6 * L.bps ≤ i ∧ i < 8 * L.bps) ∨
+            (32 * L.bps ≤ i ∧ i < 32 * L.bps + 2 * (L.spf * L.bps) + L.spc * L.bps)) → Covered img i := by
+  unfold createImage at h
+  cases hl : Detect.layout32 P size 512 with
+  | none => simp [hl] at h
+  | some L =>
+    simp only [hl, Option.map_some, Option.some.injEq] at h
+    subst h
+    refine ⟨L, rfl, ?_⟩
+    intro i hi
+    have lb := sectorBytes_length
+    have lt := take_pad_length
+    by_cases c1 : i < L.bps
+    · exact covered_of _ ⟨0, Detect.sectorBytes (Detect.bootFat32 L 0 label) L.bps⟩ i (by simp [Detect.createWrs32])
+        (Nat.zero_le _) (by simp only [lb]; omega)
+    by_cases c2 : i < 2 * L.bps
+    · exact covered_of _ ⟨L.bps, Detect.sectorBytes Detect.fsisFat32 L.bps⟩ i (by simp [Detect.createWrs32])
+        (by simp only; omega) (by simp only [lb]; omega)
+    by_cases c3 : 6 * L.bps ≤ i ∧ i < 7 * L.bps
+    · exact covered_of _ ⟨6 * L.bps, Detect.sectorBytes (Detect.bootFat32 L 0 label) L.bps⟩ i (by simp [Detect.createWrs32])
+        (by simp only; omega) (by simp only [lb]; omega)
+    by_cases c4 : 7 * L.bps ≤ i ∧ i < 8 * L.bps
+    · exact covered_of _ ⟨7 * L.bps, Detect.sectorBytes Detect.fsisFat32 L.bps⟩ i (by simp [Detect.createWrs32])
+        (by simp only; omega) (by simp only [lb]; omega)
+    by_cases c5 : 32 * L.bps ≤ i ∧ i < 32 * L.bps + L.spf * L.bps
+    · exact covered_of _ ⟨32 * L.bps, fatInit32.take (L.spf * L.bps) ++ zeros (L.spf * L.bps - fatInit32.length)⟩ i
+        (by simp [Detect.createWrs32]) (by simp only; omega) (by simp only [lt]; omega)
+    by_cases c6 : 32 * L.bps + L.spf * L.bps ≤ i ∧ i < 32 * L.bps + 2 * (L.spf * L.bps)
+    · exact covered_of _ ⟨32 * L.bps + L.spf * L.bps, fatInit32.take (L.spf * L.bps) ++ zeros (L.spf * L.bps - fatInit32.length)⟩ i
+        (by simp [Detect.createWrs32]) (by simp only; omega) (by simp only [lt]; omega)
+    · exact covered_of _ ⟨32 * L.bps + 2 * (L.spf * L.bps), zeros (L.spc * L.bps)⟩ i
+        (by simp [Detect.createWrs32]) (by simp only; omega) (by simp only [zeros_length]; omega)
+
+/-- what the FAT12 / FAT16 image covers: the boot sector, both FATs and the whole fixed root directory -/
+theorem createImage1x_covers (P : Detect.Params) (is16 : Bool) (size : Nat) (label : List Nat) (epoch : Nat) (img : List Wr)
+    (h : createImage P (if is16 then .f16 else .f12) size label epoch = some img) :
+    ∃ L, (if is16 then Detect.layout16 P size else Detect.layout12 P size) = some L ∧
+      ∀ i, (i < 512 ∨ (L.reserved * 512 ≤ i ∧ i < L.reserved * 512 + 2 * (L.spf * 512) + L.rootEnts * 32)) → Covered img i := by
+  have key : ∀ (L : Detect.Layout) (fat rootDir : Bytes) (i : Nat),
+      (i < 512 ∨ (L.reserved * 512 ≤ i ∧ i < L.reserved * 512 + 2 * (L.spf * 512) + L.rootEnts * 32)) →
+      Covered (Detect.createWrs1x is16 L 0 label fat rootDir) i := by
+    intro L fat rootDir i hi
+    have lb := sectorBytes_length
+    have lt := take_pad_length
+    by_cases c1 : i < 512
+    · exact covered_of _ ⟨0, Detect.sectorBytes (Detect.bootFat1x is16 L 0 label) 512⟩ i (by simp [Detect.createWrs1x])
+        (Nat.zero_le _) (by simp only [lb]; omega)
+    by_cases c2 : L.reserved * 512 ≤ i ∧ i < L.reserved * 512 + L.spf * 512
+    · exact covered_of _ ⟨L.reserved * 512, fat.take (L.spf * 512) ++ zeros (L.spf * 512 - fat.length)⟩ i
+        (by simp [Detect.createWrs1x]) (by simp only; omega) (by simp only [lt]; omega)
+    by_cases c3 : L.reserved * 512 + L.spf * 512 ≤ i ∧ i < L.reserved * 512 + 2 * (L.spf * 512)
+    · exact covered_of _ ⟨L.reserved * 512 + L.spf * 512, fat.take (L.spf * 512) ++ zeros (L.spf * 512 - fat.length)⟩ i
+        (by simp [Detect.createWrs1x]) (by simp only; omega) (by simp only [lt]; omega)
+    · exact covered_of _ ⟨L.reserved * 512 + 2 * (L.spf * 512), zeros (L.rootEnts * 32)⟩ i
+        (by simp [Detect.createWrs1x]) (by simp only; omega) (by simp only [zeros_length]; omega)
+  unfold createImage at h
+  cases is16 with
+  | true =>
+    simp only [if_true] at h ⊢
+    cases hl : Detect.layout16 P size with
+    | none => simp [hl] at h
+    | some L =>
+      simp only [hl, Option.map_some, Option.some.injEq] at h
+      subst h
+      exact ⟨L, rfl, key L _ _⟩
+  | false =>
+    simp only [Bool.false_eq_true, if_false] at h ⊢
+    cases hl : Detect.layout12 P size with
+    | none => simp [hl] at h
+    | some L =>
+      simp only [hl, Option.map_some, Option.some.injEq] at h
+      subst h
+      exact ⟨L, rfl, key L _ _⟩
+
 end Diskfs.Repro
